@@ -437,6 +437,9 @@ pub struct SchedScenario {
     pub opts: Opts,
     pub epoch: u64,
     pub leg: Leg,
+    /// Run the project's benchmarks (`aiken bench`, same parallel runner) instead of its tests.
+    #[serde(default)]
+    pub bench: bool,
 }
 
 pub struct SchedOutcome {
@@ -452,6 +455,7 @@ pub fn execute(sc: &SchedScenario) -> SchedOutcome {
     let root = disk.root.clone();
     let opts = sc.opts.clone();
     let leg = sc.leg.clone();
+    let bench = sc.bench;
     let width = match &leg {
         Leg::Sequential => 1,
         Leg::Controlled(_) => 1,
@@ -471,7 +475,13 @@ pub fn execute(sc: &SchedScenario) -> SchedOutcome {
             )));
         }
         let check = match new_project(&root) {
-            Ok((mut p, cap)) => do_check(&mut p, &cap, &root, &opts, false),
+            Ok((mut p, cap)) => {
+                if bench {
+                    do_bench(&mut p, &cap, &root, &opts, 6)
+                } else {
+                    do_check(&mut p, &cap, &root, &opts, false)
+                }
+            }
             Err(e) => CheckObs {
                 ok: false,
                 errors: vec![e],
@@ -645,11 +655,13 @@ impl Engine for SchedEngine {
         opts.max_success = 10 + ctx.rng.usize_below(15);
         // One-at-a-time baseline: same hash epoch, one pool thread, no executor (also audited).
         let epoch = ctx.rng.next_u64() | 1;
+        let bench = ctx.k % 3 != 2 && ctx.rng.chance(1, 5);
         let baseline_sc = SchedScenario {
             spec: spec.clone(),
             opts: opts.clone(),
             epoch,
             leg: Leg::Sequential,
+            bench,
         };
         let baseline = match guard(|| execute(&baseline_sc)) {
             Ok(b) => b,
@@ -677,7 +689,11 @@ impl Engine for SchedEngine {
             opts,
             epoch,
             leg,
+            bench,
         };
+        if bench {
+            ctx.stats.inc("benchmark_runs", 1);
+        }
         let controlled = matches!(sc.leg, Leg::Controlled(_));
         ctx.event(&format!(
             "scenario {} {} tests={n} leg={:?}",
@@ -854,6 +870,7 @@ impl Engine for SchedEngine {
                 },
                 "ownership_audit": {
                     "hand_offs_audited": stats.get("audits"),
+                    "benchmark_runs": stats.get("benchmark_runs"),
                     "rc_allocations_audited": stats.get("rc_allocations_audited"),
                     "tests_scheduled": stats.get("tests_scheduled"),
                 },
